@@ -48,10 +48,13 @@ class Plan:
 def gen_ops(ctx):
     r, th = ctx.rng, ctx.thorough()
     plan = Plan(r)
+    # ---- the byte strings of the Lean witness theorems (Props/C11.lean), replayed on the real readers first
+    for name, (fmt, entry, dev, dst, hx, st, view) in sorted(json.load(open(os.path.join(vlib.VERIF, "checks", "C11_witnesses.json"))).items()):
+        plan.ops.append(mkop(fmt, entry, dev, dst, bytes.fromhex(hx), tuple(st), tuple(view))); plan.tags.append("witness/" + name)
     # ---- BMP
     seeds = G.bmp_seeds(r, th)
     for i, (tag, b, native, dims) in enumerate(seeds):
-        plan.add("bmp", tag + ":valid", b, native, dims, full=(i % 7 == 0 or th))
+        plan.add("bmp", tag + ":valid", b, native, dims, full=(i % 16 == 0 or th))
     for i, (tag, b, native, dims) in enumerate(seeds):
         if th or dims == (2, 2): cuts = G.truncations(b, r, True)          # every truncation point
         else: cuts = [("trunc:%d" % k, b[:k]) for k in sorted({r.below(len(b)) for _ in range(6)})]
@@ -60,7 +63,7 @@ def gen_ops(ctx):
     for i, (tag, b, native, dims) in enumerate(seeds):
         if not th and dims != (3, 2): continue
         for (m, x) in G.field_mutations(b, G.BMP_FIELDS, G.BMP_EXTRA):
-            if not th and r.chance(2, 3) and not any(k in tag for k in ("bmp24", "bmp8p_h40_c0", "bmprle8", "bmp16bf565")): continue
+            if not th and r.chance(3, 4) and not any(k in tag for k in ("bmp24", "bmp8p_h40_c0", "bmprle8", "bmp16bf565")): continue
             plan.add("bmp", tag + ":" + m, x, native, dims, n_variants=1 if not th else 3)
     for (tag, b, native, dims) in seeds:
         off = int.from_bytes(b[10:14], "little")
@@ -72,13 +75,13 @@ def gen_ops(ctx):
     # ---- PNM
     seeds = G.pnm_seeds(r, th)
     for i, (tag, b, native, dims) in enumerate(seeds):
-        plan.add("pnm", tag + ":valid", b, native, dims, full=(i % 9 == 0 or th))
+        plan.add("pnm", tag + ":valid", b, native, dims, full=(i % 16 == 0 or th))
     for i, (tag, b, native, dims) in enumerate(seeds):
-        if th or dims == (2, 2) or (dims == (9, 3) and "c" not in tag): cuts = G.truncations(b, r, True)
+        if th or dims == (2, 2): cuts = G.truncations(b, r, True)
         else: cuts = [("trunc:%d" % k, b[:k]) for k in sorted({r.below(len(b)) for _ in range(6)})]
         for (m, x) in cuts: plan.add("pnm", tag + ":" + m, x, native, dims, n_variants=1 if not th else 4)
     for i, (tag, b, native, dims) in enumerate(seeds):
-        if not th and dims not in ((3, 2), (9, 3)): continue
+        if not th and dims != (3, 2): continue
         for (m, x) in G.pnm_mutations(b, r, th): plan.add("pnm", tag + ":" + m, x, native, dims, n_variants=1 if not th else 3)
     for (tag, b, native, dims) in seeds:
         start = min(len(b) - 1, 12)
@@ -87,13 +90,13 @@ def gen_ops(ctx):
     # ---- TARGA
     seeds = G.tga_seeds(r, th)
     for i, (tag, b, native, dims) in enumerate(seeds):
-        plan.add("tga", tag + ":valid", b, native, dims, full=(i % 5 == 0 or th))
+        plan.add("tga", tag + ":valid", b, native, dims, full=(i % 10 == 0 or th))
     for i, (tag, b, native, dims) in enumerate(seeds):
-        if th or dims in ((2, 2), (3, 2)): cuts = G.truncations(b, r, True)
+        if th or dims == (2, 2): cuts = G.truncations(b, r, True)
         else: cuts = [("trunc:%d" % k, b[:k]) for k in sorted({r.below(len(b)) for _ in range(8)})]
         for (m, x) in cuts: plan.add("tga", tag + ":" + m, x, native, dims, n_variants=1 if not th else 4)
     for i, (tag, b, native, dims) in enumerate(seeds):
-        if not th and dims not in ((3, 2), (2, 2)): continue
+        if not th and dims != (3, 2): continue
         for (m, x) in G.field_mutations(b, G.TGA_FIELDS, G.TGA_EXTRA): plan.add("tga", tag + ":" + m, x, native, dims, n_variants=1 if not th else 3)
     for (tag, b, native, dims) in seeds:
         for (m, x) in G.tail_corruptions(b, min(18, len(b) - 1), r, 3 if th else 2): plan.add("tga", tag + ":" + m, x, native, dims, n_variants=1 if not th else 2)
@@ -126,9 +129,11 @@ def correspond(ctx, binary, ops, label=""):
     hdir = os.path.join(ctx.scratch, "h"); os.makedirs(hdir, exist_ok=True)
     env = dict(os.environ); env.pop("ASAN_OPTIONS", None); env.pop("UBSAN_OPTIONS", None)
     impl = run_chunks([binary, hdir], ops, ctx.jobs, env=env)
+    ctx.log("real readers done")
     drv = vlib.driver_path(ctx, "drv_C11")
     model = run_chunks([drv, "model"], ops, ctx.jobs)
     verdicts = run_chunks([drv, "judge"], [o + "\t" + a for o, a in zip(ops, impl)], ctx.jobs)
+    ctx.log("model and judge done")
     known = vlib.load_known()
     ndiff = 0
     for op, a, b, v in zip(ops, impl, model, verdicts):
